@@ -448,5 +448,8 @@ class MulticomponentThermodynamics (GeneralThermodynamics):
         precPhase = _getPrecipitatePhase(self.phases, precPhase)
         curv_results = self.curvatureFactor(x, T, precPhase, removeCache, searchDir)
         if curv_results is None:
-            return self._curvature_outputs[precPhase].beta
+            #Fall back on the impingement factor of the last valid equilibrium
+            #If there is none yet (the first equilibrium calculations gave no result), return 0, which gives no nucleation rate
+            beta = self._curvature_outputs[precPhase].beta
+            return 0 if beta is None else beta
         return curv_results.beta
